@@ -196,10 +196,13 @@ Definition has_varkw (s : signature) : bool :=
    else untouched.  A name that is no ordinary parameter is an error, except
    that a function with **kwargs is left as it is (the wrapper can pass the
    value through **kwargs). *)
-Definition spec_inject (n : name) (s : signature) : res signature :=
+Definition spec_inject_opt (to_varkw : bool) (n : name) (s : signature) : res signature :=
   if existsb (removable n) (sg_params s) then Ok (sig_remove n s)
-  else if has_varkw s then Ok s
+  else if to_varkw && has_varkw s then Ok s
   else Raise ValueError.
+
+(* inject_to_varkw at its default (True) *)
+Definition spec_inject (n : name) (s : signature) : res signature := spec_inject_opt true n s.
 
 Definition has_pos_default (s : signature) : bool :=
   existsb (fun p => kind_eqb (p_kind p) PosOrKw &&
@@ -226,11 +229,13 @@ Definition spec_expect (nd : name * option value) (s : signature) : res signatur
   else if match d with None => has_pos_default s | Some _ => false end then Raise ValueError
   else Ok (mkSig (insert_pos (mkP n PosOrKw d None) (sg_params s)) (sg_ret s)).
 
-Fixpoint spec_injects (ns : list name) (s : signature) : res signature :=
+Fixpoint spec_injects_opt (to_varkw : bool) (ns : list name) (s : signature) : res signature :=
   match ns with
   | [] => Ok s
-  | n :: r => match spec_inject n s with Ok s' => spec_injects r s' | Raise e => Raise e end
+  | n :: r => match spec_inject_opt to_varkw n s with Ok s' => spec_injects_opt to_varkw r s' | Raise e => Raise e end
   end.
+
+Definition spec_injects (ns : list name) (s : signature) : res signature := spec_injects_opt true ns s.
 
 Fixpoint spec_expects (nds : list (name * option value)) (s : signature) : res signature :=
   match nds with
@@ -239,9 +244,13 @@ Fixpoint spec_expects (nds : list (name * option value)) (s : signature) : res s
   end.
 
 (* the own signature of wraps(f, injected, expected)(wrapper) *)
-Definition spec_wraps (s : signature) (injected : list name)
+Definition spec_wraps_opt (to_varkw : bool) (s : signature) (injected : list name)
            (expected : list (name * option value)) : res signature :=
-  match spec_injects injected s with
+  match spec_injects_opt to_varkw injected s with
   | Ok s' => spec_expects expected s'
   | Raise e => Raise e
   end.
+
+Definition spec_wraps (s : signature) (injected : list name)
+           (expected : list (name * option value)) : res signature :=
+  spec_wraps_opt true s injected expected.
